@@ -85,6 +85,9 @@ Qed.
 (* the metadata cache of the current source is keyed by the class object (computed over the generated fact) *)
 Lemma cache_keyed_by_class : metadata_cache_keyed_by_class = true.
 Proof. vm_compute. reflexivity. Qed.
+(* ... and filled only after the scan has completed (no partially filled entry can be observed) *)
+Lemma cache_stored_after_scan : metadata_cache_stored_after_scan = true.
+Proof. vm_compute. reflexivity. Qed.
 
 (* the deviations, each on its recorded witness *)
 Lemma call_getter_refuted :
@@ -92,7 +95,7 @@ Lemma call_getter_refuted :
   ~ explicitly_exposed is_private_attribute w1_shape w_secret.
 Proof.
   split. { vm_compute. left. reflexivity. }
-  unfold explicitly_exposed. simpl. intros [[H _]|H]; discriminate.
+  unfold explicitly_exposed. simpl. intros [[H _]|[H|H]]; discriminate.
 Qed.
 
 Lemma private_property_refuted :
@@ -129,6 +132,18 @@ Lemma star_args_refuted :
   serve is_private_attribute q_star_only w1_shape (strip_surplus w7_request) = ([], RepError).
 Proof.
   split. { vm_compute. reflexivity. }
-  split. { unfold explicitly_exposed. simpl. intros [[H _]|H]; discriminate. }
+  split. { unfold explicitly_exposed. simpl. intros [[H _]|[H|H]]; discriminate. }
   vm_compute. reflexivity.
+Qed.
+
+(* seeded change C02_8 (any accessor mark counts): on today's model the never-exposed property w_target, whose SECOND
+   accessor is an exposed method, is neither read, written nor advertised, and is not exposed by the first-accessor rule *)
+Lemma later_accessor_mark_not_enough :
+  serve is_private_attribute quirks_asis w8_shape (mkreq RGet false [NStr (m_name w_target)]) = ([], RepError) /\
+  serve is_private_attribute quirks_asis w8_shape (mkreq RSet false [NStr (m_name w_target)]) = ([], RepError) /\
+  meta_attrs is_private_attribute w8_shape = [] /\
+  ~ exposed_by_rule is_private_attribute w8_shape w_target.
+Proof.
+  split; [vm_compute; reflexivity|]. split; [vm_compute; reflexivity|]. split; [vm_compute; reflexivity|].
+  unfold exposed_by_rule. simpl. intros [[H _]|[[H _]|H]]; discriminate.
 Qed.
